@@ -761,6 +761,30 @@ class C09(Oracle):
                         out.append(V('pickndrop/wrong-effect', f'{enc_state(b)} a={a} -> {enc_state(s)}'))
                     if not isinstance(s.agent.grid_object, NoneGridObject) and not s.agent.grid_object.holdable:
                         out.append(V('pickndrop/non-holdable-in-hand', f'{enc_state(b)} a={a}'))
+        if out or 6 in c['atoms']:
+            return out
+        # a chain that fails half-way (a component of the user's own raising after the built-in ones have
+        # acted, in place): whatever the state is afterwards, nothing was lost or duplicated
+        from harness.recrng import ScriptRng
+        from gym_gridverse.envs import transition_functions as trf
+
+        def boom(state, action, *, rng=None):
+            raise RuntimeError('a component of the user fails')
+
+        st = state_from_str(c['state'])
+        if not in_grid(st.grid, st.agent.position):
+            return out
+        inv0 = inventory(st, box_deep=True)
+        a0 = ACTIONS[c['action']]
+        try:
+            trf.chain(st, a0, transition_functions=[trf.transition_function_registry[TRANS_NAMES[i]] for i in c['atoms'] if i != 5] + [boom], rng=ScriptRng(list(c['answers'])))
+        except RuntimeError:
+            pass
+        except Exception:
+            return out
+        inv1 = inventory(st, box_deep=True)
+        if inv0 != inv1:
+            out.append(V('chain/objects-lost-or-duplicated-after-a-failed-chain', f'{c["state"]} a={a0} atoms={c["atoms"]}: {dict(inv0)} -> {dict(inv1)}'))
         return out
 
 
@@ -1929,6 +1953,8 @@ def custom_env(cu):
     kinds = [k for k in grid_object_registry if k.__name__ not in ('NoneGridObject', 'Hidden')]
     if cu.get('representable'):
         kinds = [k for k in kinds if k.can_be_represented_in_state()]
+    if cu.get('kinds'):
+        kinds = [k for k in kinds if k.__name__ in cu['kinds']]
     chain = functools.partial(trf.chain, transition_functions=[trf.transition_function_registry[n] for n in cu['trans']])
     rewards = [functools.partial(rf.living_reward, reward=-0.5), functools.partial(rf.reach_exit, reward_on=5.0, reward_off=0.0),
                functools.partial(rf.bump_into_wall, reward=-1.0)]
@@ -3644,7 +3670,7 @@ class C02(Oracle):
         g = gen_env_cases(rng, p_random=0.35)
         while True:
             c = next(g)
-            c['sched'] = [rng.randrange(4) for _ in range(3 * len(c['actions']))]
+            c['sched'] = [rng.randrange(5) if rng.random() < 0.5 else rng.randrange(4) for _ in range(3 * len(c['actions']))]
             c['other_seed'] = rng.randrange(2**31)
             yield c
 
@@ -3699,6 +3725,19 @@ class C02(Oracle):
                 other.observation
                 if d:
                     other.reset()
+            elif w == 4:
+                # a refused step on the first copy (something that is no action of its space), between two reads
+                # of its observation: nothing happened, the observation is the one already made, no draw is spent
+                e = a_env
+                before = enc_state(e.observation)
+                bad = next((x for x in ACTIONS if not e.action_space.contains(x)), 'no-such-action')
+                try:
+                    e.step(bad)
+                except Exception:
+                    pass
+                if enc_state(e.observation) != before:
+                    out.append(V('rng/refused-step-changes-the-observation', f'{c.get("file", "random composition")} seed={c["seed"]}: the observation of an unchanged state was made anew after a refused step'))
+                    return out
             else:
                 get_gv_rng().random()
                 lib_used = True
@@ -3725,6 +3764,16 @@ class C03(Oracle):
         k = 0
         while True:
             k += 1
+            if k % 13 == 7:
+                # an environment whose declared state space is narrower than what its dynamics can produce (a
+                # box holding a kind that is not declared): the step out of the space is refused or answered
+                # with a fresh state, never with the very state that was passed in
+                h, w = rng.randint(2, 4), rng.randint(2, 4)
+                y, x = rng.randrange(h), rng.randrange(w - 1)
+                st = gen.mk_state(h, w, {(y, x + 1): rng.choice(['XK1', 'XE0', 'XD11', 'XO'])}, y, x, O.R)
+                yield {'kind': 'narrow', 'custom': {'state': enc_state(st), 'area': [-1, 0, -1, 1], 'obs': 'fully_transparent', 'trans': ['move_agent', 'turn_agent', 'actuate_box'], 'kinds': ['Floor', 'Wall', 'Box']},
+                       'debug': rng.random() < 0.7}
+                continue
             if k % 11 == 5:
                 # the reward helpers remember things (shortest-path tables, ray fans): the same question about
                 # one world, asked before and after questions about look-alike worlds (the same cells laid out
@@ -3876,6 +3925,29 @@ class C03(Oracle):
         out = []
         if c['kind'] == 'rewardhist':
             return self._rewardhist(c)
+        if c['kind'] == 'narrow':
+            from gym_gridverse.debugging import reset_gv_debug
+
+            reset_gv_debug(bool(c['debug']))
+            try:
+                env = custom_env(c['custom'])
+                env.set_seed(1)
+                s = env.functional_reset()
+                snap = enc_state(s)
+                for a in (Action.ACTUATE, Action.TURN_LEFT, Action.MOVE_BACKWARD):
+                    try:
+                        s2, _, _ = env.functional_step(s, a)
+                    except Exception:
+                        continue
+                    if s2 is s or s2.grid is s.grid or s2.agent is s.agent or any(r1 is r2 for r1 in s.grid.objects for r2 in s2.grid.objects):
+                        out.append(V('step/shares-mutable-node', f'user-reset environment {c["custom"]} (declared kinds {c["custom"]["kinds"]}), {a.name}: the answer is (made of) the state that was passed in'))
+                        break
+                    if enc_state(s) != snap:
+                        out.append(V('step/modifies-argument', f'user-reset environment {c["custom"]}, {a.name}'))
+                        break
+            finally:
+                reset_gv_debug(None)
+            return out
         if c['kind'] == 'heapstep':
             s = state_from_str(c['state'])
             a = ACTIONS[c['action']]
